@@ -40,7 +40,13 @@ LEVEL_TEXT = ("Proof: ms -> datetime is exactly 1000*ms microseconds for every |
               "phases, strings and decimal years; where the model reproduces a rounding artefact of the current float path that the "
               "property does not demand (ms -> datetime outside 1697..2242, the last bits of decimal years and of the scaling "
               "fraction) an implementation that returns the exact answer, or a decimal year within the error bound from which the "
-              "property's clauses are proved, is accepted and counted, not reported.")
+              "property's clauses are proved, is accepted and counted, not reported. Round 6: CPython's datetime primitives are modelled with "
+              "the LOCAL TIME ZONE as an explicit parameter and the library's conversions composed from them as the code composes them: "
+              "every conversion is proved independent of the zone and equal to the zone-free model (the variants using fromtimestamp(t) "
+              "without a zone / astimezone on a naive datetime are proved to depend on it); strptime is modelled at character level "
+              "for ANY field widths (the regular expression _strptime compiles, matched with the same ordered backtracking search; "
+              "compared with CPython on >= 1500 format / string pairs per run; its agreement with the canonical-width parser on "
+              "str(datetime) output is kernel-checked on instances, not proved in general).")
 LEVEL_NOTE = ("CPython's datetime (fromtimestamp = modf, *1e6, round-half-even; timedelta normalisation; strptime/str) and "
               "binary64 arithmetic are modelled by hand and validated bit-for-bit on every run; strptime is modelled for the "
               "canonical field widths that str(datetime) writes; the Windows branch of epoch_time_to_utc_datetime is modelled from the "
@@ -77,7 +83,10 @@ THEOREMS = ["Time.ms_to_dt_exact", "Time.dt_to_ms_floor", "Time.ms_roundtrip", "
             "Time.decimal_year_strict_mono_full", "Time.decimal_year_inverse_within_1ms_full", "Time.decimal_year_in_year",
             "Time.scale_unchanged_iff", "Time.scale_frac_eq", "Time.scale_mono", "Time.scale_defined_pos",
             "Time.datetime_statement_threshold", "Time.datetime_filter_keeps", "Time.none_or_datetime_roundtrip",
-            "Time.general_format_agrees", "Time.file_name_format_agrees"]
+            "Time.general_format_agrees", "Time.file_name_format_agrees",
+            # round 6 (Properties/C15_Env.lean, C15_Strptime.lean)
+            "Time.conversions_zone_independent", "Time.conversions_are_zone_free_model", "Time.ms_roundtrip_any_zone",
+            "Time.local_variants_depend_on_zone", "Time.offset_discarded", "Time.library_formats_compile"]
 TRUSTED = ["Lean 4.33 kernel", "axioms: propext, Classical.choice, Quot.sound at most",
            "Soft64.fl64 is IEEE-754 binary64 round-to-nearest-even and CPython float * and / are that arithmetic "
            "(validated bit-for-bit on every generated operand)",
@@ -113,7 +122,13 @@ RULE = ("uniform integer milliseconds in 1900-01-01..2200-01-01; complete +-2000
         "statements that must raise; the three time members of CSEPCatalog.from_dict as str(dt) / datetime / None; file names "
         "through csep.load_catalog_forecast and explicit formats with random literal separators (wrong separator must be "
         "ValueError); decimal years of 0001..9999 (1 ms lattices and every microsecond around 20+ year ends, first / last "
-        "microseconds of the range, uniform) and every microsecond across second / minute / hour / day carries.")
+        "microseconds of the range, uniform) and every microsecond across second / minute / hour / day carries. Round 6: 1500 / 30000 "
+        "format / string pairs for the general strptime model (library formats and variations; un-padded fields, blank runs, zone "
+        "suffixes, out-of-range fields, truncations, garbage); every conversion by keyword and positionally with warnings as "
+        "errors, the epoch as float / numpy.float64 / int64 / int32 / uint64, datetime subclasses (user subclass, HistoricTime, "
+        "pandas.Timestamp naive and UTC); -0.0, subnormal, boolean, small-integer-type epochs, integer / numpy decimal years; "
+        "catalogs of exactly 65535 / 65536 / 65537 events, caller-owned arrays and statement lists left alone, filter by keyword, "
+        "relative file names under another working directory.")
 
 # sub-classes on which the UNCHANGED library deviates and a decision is pending (generator leaves the assertion out,
 # the observation is counted): see notes/C15.md "Observed on unchanged /repo"
